@@ -41,8 +41,9 @@ def check_state(res, st, tag, pending, graph_adj=None):
         h = [int(v) for v in hf.height_func_list(x.copy(), z.copy())]
         hmax = int(hf.height_max(x.copy(), z.copy()))
         hd = hf.height_dict(x.copy(), z.copy())
+        hd = {int(k): int(v) for k, v in dict(hd).items()}  # a result that is not a mapping of integers is reported here, not a harness crash
     except Exception as e:  # noqa: BLE001
-        res.violation(f"height:raises:{err_class(e)}", "height function raised on a valid generating set", input=inp)
+        res.violation(f"height:raises:{err_class(e)}", "height function raised (or returned something that is not a list / dictionary of integers) on a valid generating set", input=inp)
         return
     if h != spec:
         res.violation("height:not-entropy", f"height_func_list {h} differs from the bipartite entanglement entropy {spec}", input=inp)
